@@ -13,28 +13,28 @@ CHECKS = {
                 "(one action per language rule) over them and over seeded random programs; every run of the real pipeline "
                 "(parser, transpiler, Bash converter, /bin/bash) is recorded and validated against the machine by TLC: stdout bytes, "
                 "exit status, empty stderr. Machine invariants (never stuck = type soundness within bounds, balanced stacks, "
-                "frame isolation) are checked in every visited state. Further families added after six rounds of seeded changes: negated comparisons, simultaneous assignment with wrapped operands, jumps of an outer loop around nested loops, jump sites in every kind of branch body, re-evaluation of one expression text before and inside loops; every typed position x every offered expression of spec/FamC06.tla is also run (compositional family); spec/FamScale.tla repeats the constructs at sizes across the digit boundaries (9-33). Rounds 8-9 added spec/FamPairs.tla (every ordered pair of 40 feature snippets x 8 composition modes; each property takes the pairs whose highest property it is), spec/FamSkel.tla (EVERY control skeleton of up to 2, thorough 3, constructs out of 8 kinds with at most one jump site), self-referencing assignments and guards at the end of branches. The thorough tier instruments TLC with -coverage and fails (exit 2) if a rule of TshDyn the property is about was never taken.",
+                "frame isolation) are checked in every visited state. Further families added after six rounds of seeded changes: negated comparisons, simultaneous assignment with wrapped operands, jumps of an outer loop around nested loops, jump sites in every kind of branch body, re-evaluation of one expression text before and inside loops; every typed position x every offered expression of spec/FamC06.tla is also run (compositional family); spec/FamScale.tla repeats the constructs at sizes across the digit boundaries (9-33). Rounds 8-9 added spec/FamPairs.tla (every ordered pair of 40 feature snippets x 8 composition modes; each property takes the pairs whose highest property it is), spec/FamSkel.tla (EVERY control skeleton of up to 2, thorough 3, constructs out of 8 kinds with at most one jump site), self-referencing assignments and guards at the end of branches. The thorough tier instruments TLC with -coverage and fails (exit 2) if a rule of TshDyn the property is about was never taken. Rounds 13-15: a share of every run family is run once more in another legal spelling of the same program (harness/respell.go: redundant brackets; no blanks and no optional brackets, !!x; var for :=; blank and comment lines around braces), strings that look like numbers / booleans / shell words (NumStr), Bash runs in a working directory with decoy files (unquoted pattern characters expand) whose path holds a blank.",
         "note": TRUST,
         "technique": "TLA+ abstract machine (TshDyn) + TLC trace validation of real transpile-and-run observations",
     },
     "C02": {
         "text": "TLC enumerates spec/FamC02.tla (every legal assignment of names to the roles global-before/parameter/local of two functions/global-after, "
                 "all arities and call shapes, in-place global updates by every assignment form, simultaneous and re-entrant multi-assignments, nested calls) "
-                "and validates each recorded Bash run against TshDyn's CallEnter/Return/AssignIn rules; FrameIsolation is an action property checked on every transition. Also: statement calls whose arguments are calls, loops that are live across a call, return forwarding, bracketless definitions, shadowing multi-definitions, and the FamScale cases (10+ functions, parameters, results, calls, locals). Rounds 8-9 added the C02 part of spec/FamPairs.tla and the BlockDef family (one name defined in several blocks of a callee, some skipped at run time, while a variable of that name lives in the caller / at top level).",
+                "and validates each recorded Bash run against TshDyn's CallEnter/Return/AssignIn rules; FrameIsolation is an action property checked on every transition. Also: statement calls whose arguments are calls, loops that are live across a call, return forwarding, bracketless definitions, shadowing multi-definitions, and the FamScale cases (10+ functions, parameters, results, calls, locals). Rounds 8-9 added the C02 part of spec/FamPairs.tla and the BlockDef family (one name defined in several blocks of a callee, some skipped at run time, while a variable of that name lives in the caller / at top level). Rounds 13-15: awkward-looking argument values bound to every parameter position (ArgVal, with decoy files in the working directory), multi-name short definitions that re-use a name (ReDef), slice results next to other calls (SliceRet), and a share of all cases in other legal spellings (harness/respell.go).",
         "note": TRUST,
         "technique": "TLA+ abstract machine (frames, globals) + TLC trace validation of real transpile-and-run observations",
     },
     "C03": {
         "text": "TLC enumerates spec/FamC03.tla (all in-range (a,b) subscripts per string length, growth for every (length, index, element type) incl. two-digit "
                 "values, all two-step aliasing histories over three slice variables, copy for all length pairs) and validates each recorded Bash run against "
-                "TshDyn's slice heap (SliceNew, SetIdxApply, ApplyCopy, ApplyIndex, ApplySubstr); RefsValid is checked in every state. Also: nested / sequential range loops over every pair of lengths, copy as a statement and from / into globals inside functions, element values with punctuation, the compositional run family (FamC06 RunCases with slices and strings), FamScale (10+ slices, 9-33 elements, strings of 9-100 characters). Rounds 8-9 added the C03 part of spec/FamPairs.tla (slice and string snippets paired with every other feature in 8 composition modes).",
+                "TshDyn's slice heap (SliceNew, SetIdxApply, ApplyCopy, ApplyIndex, ApplySubstr); RefsValid is checked in every state. Also: nested / sequential range loops over every pair of lengths, copy as a statement and from / into globals inside functions, element values with punctuation, the compositional run family (FamC06 RunCases with slices and strings), FamScale (10+ slices, 9-33 elements, strings of 9-100 characters). Rounds 8-9 added the C03 part of spec/FamPairs.tla (slice and string snippets paired with every other feature in 8 composition modes). Rounds 14-15: every way of declaring several slices x store histories (Decl), and a share of all cases in other legal spellings (harness/respell.go).",
         "note": TRUST,
         "technique": "TLA+ abstract machine (slice heap with references) + TLC trace validation of real transpile-and-run observations",
     },
     "C04": {
         "text": "Every operand position of every statement kind is filled with an effectful probe so that stdout is the evaluation log; TLC enumerates "
                 "spec/FamC04.tla and validates each recorded log against the eager, left-to-right, evaluate-once rules of TshDyn "
-                "(ExprPushOperands, IfEvalAllConds, LoopHead). Also: one operand a literal or variable and the other with an effect (folding), arithmetic identities, exists / read next to a later operand that changes the file, continue from every kind of branch body with probed condition and increment, switches of 9-33 cases with the default in any position, 9-33 operands / arguments / conditions / elements. Rounds 8-9 added the C04 part of spec/FamPairs.tla and the Inert family (callees that do nothing with their arguments x argument expressions with nested effects).",
+                "(ExprPushOperands, IfEvalAllConds, LoopHead). Also: one operand a literal or variable and the other with an effect (folding), arithmetic identities, exists / read next to a later operand that changes the file, continue from every kind of branch body with probed condition and increment, switches of 9-33 cases with the default in any position, 9-33 operands / arguments / conditions / elements. Rounds 8-9 added the C04 part of spec/FamPairs.tla and the Inert family (callees that do nothing with their arguments x argument expressions with nested effects). Rounds 14-15: a share of all cases in other legal spellings (harness/respell.go).",
         "note": TRUST + " A plain variable read is not an effect (ordering of reads against later callee writes is unspecified, as in Go).",
         "technique": "effect-probe families enumerated by TLC + trace validation of the evaluation log against the TLA+ machine",
     },
@@ -65,14 +65,14 @@ CHECKS = {
     "C06": {
         "text": "spec/TshStatic.tla is the static semantics as typing rules (one rule per typed position, pseudo types void/multi never legal operands); TLC evaluates it on every "
                 "case of spec/FamC06.tla (87 positions x offered types x contexts, return positions at any depth, arity/value-count cases) and validates the verdict the real "
-                "transpiler gave for Bash and for Batch (script, or error and no script) against it.",
+                "transpiler gave for Bash and for Batch (script, or error and no script) against it. Rounds 14-15: double negation positions; every second case once more in another legal spelling (brackets / lean / var / airy), the verdict may not depend on it.",
         "note": "Trusted: TLC; Appendix E of DESIGN.md as the statement of Go's rules and the README signatures; constructs marked '?' by the specification are not compared.",
         "technique": "TLA+ typing rules (TshStatic) evaluated by TLC + validation of recorded accept/reject verdicts of both targets",
     },
     "C07": {
         "text": "TLC evaluates spec/TshStatic.tla (block-scoped contexts, function bodies restricted to earlier globals, placement rules) on every (definition site, use site) pair of "
                 "spec/FamC07.tla for variables and functions, every placement of break/continue/return/func in 23 contexts and the redefinition variants, and validates the recorded "
-                "verdict of the real transpiler for both targets.",
+                "verdict of the real transpiler for both targets. Rounds 14-15: public / private name shapes across the import boundary (FamC09 NameShape), what is checked where a function body ends x spellings (EndCases), every second case once more in another legal spelling.",
         "note": "Trusted: TLC; the scoping rules of DESIGN.md section 3.2 / 6.1 (no shadowing; break needs an enclosing loop).",
         "technique": "TLA+ scoping rules (TshStatic) evaluated by TLC over site-pair families + validation of recorded accept/reject verdicts",
     },
@@ -115,7 +115,7 @@ CHECKS = {
         "text": "spec/Cli.tla states the outcome relation of one tsh invocation on (output directory, input): well-formedness of argv decided by the specification, success => exit 0 and "
                 "each requested target's file holds exactly the library's bytes and nothing else changes, failure => non-zero exit and no new or changed file for a failing target, the "
                 "input never changes. TLC enumerates every order of the option pairs for 6 target lists in both spellings, input names, program kinds, output-directory states and 25 "
-                "ill-formed option lists (spec/FamC19.tla); the real tsh binary is run once per case and the recorded outcome validated by TLC. Rounds 8-9 added input programs with imports (import-time code, an ill-typed import) and programs with nothing to execute (functions only, comments only, an unused import, no bytes).",
+                "ill-formed option lists (spec/FamC19.tla); the real tsh binary is run once per case and the recorded outcome validated by TLC. Rounds 8-9 added input programs with imports (import-time code, an ill-typed import) and programs with nothing to execute (functions only, comments only, an unused import, no bytes). Round 13: the two paths written relative, with ./ and a trailing separator, through .., from inside the input's directory; output directories with a blank, an output extension, several dots.",
         "note": "Trusted: TLC; the harness's directory snapshots (SHA-256) and its library call on a copy of the input as the standard.",
         "technique": "TLA+ outcome relation (Cli) + TLC validation of recorded runs of the real tsh binary over TLC-enumerated invocations",
     },
@@ -130,7 +130,7 @@ CHECKS = {
         "text": "No cmd.exe exists in the sandbox, so the Batch target is decided under an explicit TLA+ model of the rules the property names (spec/CmdExe.tla: units, %- and !-expansion phases, "
                 "set /A in 32 bits, numeric-vs-text IF, forward-then-wrap label search from the end of the current unit, call/exit /B frames). The REAL emitted script of every program "
                 "(C01-C04 families in the int32/cmd-neutral fragment, label-allocation shapes across functions, seeded random programs) is parsed into units and executed by TLC; stdout and "
-                "status must equal the reference semantics TshDyn(W=32); the Bash run is a third witness. Rounds 8-9 added spec/FamSkel.tla (every control skeleton up to a size) and spec/FamPairs.tla under the cmd.exe model, the GuardTail family, rule R9 for ') else (' met outside a block, and a guard that ends the run as an infrastructure error when the model cannot execute the script of a program without file / command / input builtins.",
+                "status must equal the reference semantics TshDyn(W=32); the Bash run is a third witness. Rounds 8-9 added spec/FamSkel.tla (every control skeleton up to a size) and spec/FamPairs.tla under the cmd.exe model, the GuardTail family, rule R9 for ') else (' met outside a block, and a guard that ends the run as an infrastructure error when the model cannot execute the script of a program without file / command / input builtins. Rounds 14-15: a share of the programs in other legal spellings; number-looking strings (FamC01 NumStr) taken whole; the scripts go to CmdExe in chunks of 3000.",
         "note": "Trusted: TLC; spec/CmdExe.tla as the statement of cmd.exe's documented rules (a model, not cmd.exe); harness/batparse.go as the splitter of emitted lines into commands and segments.",
         "technique": "TLA+ model of cmd.exe executing the real emitted Batch script in TLC, compared with the TLA+ reference semantics",
     },
@@ -138,7 +138,7 @@ CHECKS = {
         "text": "spec/TshModules.tla states linking: files visited depth first in import order, each file once, every name qualified by its file, alias.Name resolving to the public function of the "
                 "aliased file, private/undefined/unknown-alias calls static errors. TLC links every import graph of spec/FamC09.tla (single, pair, chain, diamonds, two aliases, std + local, "
                 "repeated imports followed by top-level code) x content kinds x hash-prefix class, checks the result with TshStatic and validates the recorded Bash run of the real multi-file "
-                "program against TshDyn on the linked program (a removed function shows as stderr output); verdicts are compared for both targets.",
+                "program against TshDyn on the linked program (a removed function shows as stderr output); verdicts are compared for both targets. Round 14: 17 more use sites for the unused-function clause (argument of panic, else-if condition, loop initialiser, ...), 16 shapes of function names for the public / private rule.",
         "note": TRUST + " Calls into the bundled std library are replaced in the model program by the values of spec/GoStrings.tla.",
         "technique": "TLA+ linking function (TshModules) + static check + trace validation of real multi-file runs against the TLA+ machine on the linked program",
     },
@@ -146,7 +146,7 @@ CHECKS = {
         "text": "spec/Rename.tla applies a consistent renaming to the abstract syntax; TLC enumerates spec/FamC10.tla: 13 base programs covering every name-allocating construct x each user "
                 "identifier x a catalog of 60 variable / 23 function names the back-ends reserve or inherit from the shell, case-only variants, rotations, and names composed of other names "
                 "of the program with '_'. For every renamed program the recorded Bash run must be the behaviour TshDyn prescribes, or the transpiler must refuse; the specification's own "
-                "alpha invariance (expectation of renaming = expectation of base) is checked on every case. Captures on the unchanged tree are known findings K13-K15. Batch side: every renamed program without file/command builtins is also converted by the real Batch converter and executed by TLC under spec/CmdExe.tla, in which variable names and labels fold letter case; findings K16-K19. Further name families: 59 name shapes, pairs of one shape, names that coincide once a function number is appended, write-only variables, same-spelling locals in caller and callee.",
+                "alpha invariance (expectation of renaming = expectation of base) is checked on every case. Captures on the unchanged tree are known findings K13-K15. Batch side: every renamed program without file/command builtins is also converted by the real Batch converter and executed by TLC under spec/CmdExe.tla, in which variable names and labels fold letter case; findings K16-K19. Further name families: 59 name shapes, pairs of one shape, names that coincide once a function number is appended, write-only variables, same-spelling locals in caller and callee. Round 15: names are also DERIVED from the scripts the tree under test emits for the base programs (every name assigned or expanded there, with and without the f<k>_ prefix) and tried as the spelling of every user variable, so that a new hidden-name scheme is met by names no known finding lists.",
         "note": TRUST + " There is no cmd.exe in the sandbox: the Batch script runs under spec/CmdExe.tla.",
         "technique": "TLA+ renaming function (Rename) over TLC-enumerated base x identifier x name families + trace validation of real Bash runs and of the real Batch script under the TLA+ cmd.exe model",
     },
